@@ -4,22 +4,39 @@
 package bfe_http2
 
 // Verification hook for property C34 (outbound DATA respects peer windows and frame order).
-// Exposes the real writeScheduler / flow / processSettingInitialWindowSize to the out-of-tree
-// harness (/verif/harness/cmd/c34).  Add-only, compiled only with build tag "verif".
+//
+// VerifC34 is a serverConn without goroutines: the out-of-tree harness (/verif/harness/cmd/c34)
+// plays the serve loop's event sources and the frame-writer goroutine.  Everything that touches the
+// outbound windows or the write scheduler is the REAL code: writeFrame, scheduleFrameWrite,
+// startFrameWrite, writeScheduler.take/takeFrom/forgetStream, flow.add/take, wroteFrame (END_STREAM:
+// resetStream / closeStream), processResetStream, processWindowUpdate (+ resetStream on its stream
+// error, as processFrameFromReader does), processSettingInitialWindowSize, closeStream.
+//
+// The writer is "busy" (sc.writingFrame == true) between harness calls, so events only queue; TakeChain
+// lets the writer finish: scheduleFrameWrite picks the next frame, and as long as the frame picked
+// carries END_STREAM the real wroteFrame runs (which closes the stream and schedules again).
+// Flush pseudo-frames are suppressed (needsFrameFlush is cleared): they carry no data.
+// Add-only, compiled only with build tag "verif".
 
-import "sort"
+import (
+	"net"
+	"sort"
+	"time"
+)
 
-// VerifC34 is a bare serverConn (no goroutines, no network) whose outbound scheduling state the
-// harness drives op by op.  Only code of writesched.go / flow.go / server.go is executed.
+import (
+	http "github.com/bfenetworks/bfe/bfe_http"
+)
+
 type VerifC34 struct {
 	sc   *serverConn
-	msgs map[*byte]int // first byte of a payload buffer -> message number
-	lens map[int]int   // message number -> original length
+	peer net.Conn
+	lens map[int]int // message number -> original length
 }
 
-// VerifC34Frame describes what writeScheduler.take returned.
+// VerifC34Frame describes a frame handed to the writer.
 type VerifC34Frame struct {
-	Kind string // "C" control (stream-less), "H" non-DATA stream frame, "D" DATA, "Z" zero-length DATA
+	Kind string // "C" stream-less, "H" non-DATA stream frame, "D" DATA, "Z" zero-length DATA
 	ID   uint32
 	Msg  int // DATA: message number given to AddData
 	Off  int // DATA: offset of the chunk in the message
@@ -29,28 +46,54 @@ type VerifC34Frame struct {
 }
 
 func NewVerifC34() *VerifC34 {
+	c1, c2 := net.Pipe()
 	sc := &serverConn{
-		streams:           make(map[uint32]*stream),
-		writeSched:        writeScheduler{maxFrameSize: initialMaxFrameSize},
-		initialWindowSize: initialWindowSize,
+		srv:                    &Server{},
+		hs:                     &http.Server{},
+		conn:                   c1,
+		streams:                make(map[uint32]*stream),
+		writeSched:             writeScheduler{maxFrameSize: initialMaxFrameSize},
+		initialWindowSize:      initialWindowSize,
+		writeFrameCh:           make(chan frameWriteMsg, 1),
+		doneServing:            make(chan struct{}),
+		readClientAgainTimeout: time.Minute,
+		advMaxStreams:          1000,
 	}
 	sc.flow.add(initialWindowSize)
-	return &VerifC34{sc: sc, msgs: map[*byte]int{}, lens: map[int]int{}}
+	sc.inflow.add(initialWindowSize)
+	sc.writingFrame = true
+	return &VerifC34{sc: sc, peer: c2, lens: map[int]int{}}
 }
 
-// Open creates a stream the way processHeaders links its outbound flow.
-func (v *VerifC34) Open(id uint32) bool {
+func (v *VerifC34) Close() {
+	v.sc.conn.Close()
+	v.peer.Close()
+}
+
+// Open creates a stream the way processHeaders links its outbound flow; hcr = the request carried
+// END_STREAM (stateHalfClosedRemote).
+func (v *VerifC34) Open(id uint32, hcr bool) bool {
 	if _, ok := v.sc.streams[id]; ok {
 		return false
 	}
 	st := &stream{sc: v.sc, id: id, state: stateOpen}
+	if hcr {
+		st.state = stateHalfClosedRemote
+	}
+	st.cw.Init()
 	st.flow.conn = &v.sc.flow
 	st.flow.add(v.sc.initialWindowSize)
+	st.inflow.conn = &v.sc.inflow
+	st.inflow.add(initialWindowSize)
 	v.sc.streams[id] = st
+	v.sc.curOpenStreams++
+	if id > v.sc.maxStreamID {
+		v.sc.maxStreamID = id
+	}
 	return true
 }
 
-// AddData queues a DATA write of n bytes (message number msg) on stream id.
+// AddData: a handler's DATA write of n bytes (message number msg) arrives on wantWriteFrameCh.
 func (v *VerifC34) AddData(id uint32, msg, n int, end bool) bool {
 	st, ok := v.sc.streams[id]
 	if !ok {
@@ -60,38 +103,33 @@ func (v *VerifC34) AddData(id uint32, msg, n int, end bool) bool {
 	for i := range p {
 		p[i] = byte(msg)
 	}
-	if n > 0 {
-		v.msgs[&p[0]] = msg
-	}
 	v.lens[msg] = n
-	v.sc.writeSched.add(frameWriteMsg{write: &writeData{streamID: id, p: p, endStream: end}, stream: st,
+	v.sc.writingFrame = true
+	v.sc.writeFrame(frameWriteMsg{write: &writeData{streamID: id, p: p, endStream: end}, stream: st,
 		done: make(chan error, 1)})
 	return true
 }
 
-// AddHeaders queues a response HEADERS write (a stream frame without flow-control cost).
+// AddHeaders: a handler's response HEADERS write (a stream frame without flow-control cost).
 func (v *VerifC34) AddHeaders(id uint32, end bool) bool {
 	st, ok := v.sc.streams[id]
 	if !ok {
 		return false
 	}
-	v.sc.writeSched.add(frameWriteMsg{write: &writeResHeaders{streamID: id, endStream: end}, stream: st})
+	v.sc.writingFrame = true
+	v.sc.writeFrame(frameWriteMsg{write: &writeResHeaders{streamID: id, endStream: end}, stream: st})
 	return true
 }
 
 // AddControl queues a stream-less frame.
 func (v *VerifC34) AddControl() {
-	v.sc.writeSched.add(frameWriteMsg{write: writeSettingsAck{}})
+	v.sc.writingFrame = true
+	v.sc.writeFrame(frameWriteMsg{write: writeSettingsAck{}})
 }
 
-// Take calls the real writeScheduler.take.
-func (v *VerifC34) Take() (VerifC34Frame, bool) {
-	wm, ok := v.sc.writeSched.take()
-	if !ok {
-		return VerifC34Frame{}, false
-	}
+func (v *VerifC34) describe(wm frameWriteMsg) VerifC34Frame {
 	if wm.stream == nil {
-		return VerifC34Frame{Kind: "C"}, true
+		return VerifC34Frame{Kind: "C"}
 	}
 	switch w := wm.write.(type) {
 	case *writeData:
@@ -101,7 +139,7 @@ func (v *VerifC34) Take() (VerifC34Frame, bool) {
 		}
 		if len(w.p) == 0 {
 			f.Kind = "Z"
-			return f, true
+			return f
 		}
 		// identify the message by content and the offset by the remaining capacity of the slice
 		for _, b := range w.p {
@@ -115,32 +153,68 @@ func (v *VerifC34) Take() (VerifC34Frame, bool) {
 		} else {
 			f.Kind = "BAD-MSG"
 		}
-		return f, true
+		return f
 	case *writeResHeaders:
-		return VerifC34Frame{Kind: "H", ID: wm.stream.id, End: w.endStream}, true
+		return VerifC34Frame{Kind: "H", ID: wm.stream.id, End: w.endStream}
 	}
-	return VerifC34Frame{Kind: "?"}, true
+	return VerifC34Frame{Kind: "?"}
 }
 
-// WindowUpdate mirrors processWindowUpdate's flow arithmetic (without scheduling a write):
-// result "ok", "nostream", "rst" (stream overflow: the stream is reset and forgotten as
-// resetStream/closeStream do) or "goaway" (connection overflow).
+// TakeChain: the writer goroutine becomes free.  The real scheduleFrameWrite picks the next frame
+// (writeScheduler.take + startFrameWrite); while the picked frame carries END_STREAM the real
+// wroteFrame is run for it (stream closed / reset, next frame scheduled).  Returns the frames in the
+// order they were handed to the writer; the last one stays "being written".
+func (v *VerifC34) TakeChain() []VerifC34Frame {
+	sc := v.sc
+	var out []VerifC34Frame
+	sc.writingFrame = false
+	sc.needsFrameFlush = false
+	sc.scheduleFrameWrite()
+	for {
+		var wm frameWriteMsg
+		select {
+		case wm = <-sc.writeFrameCh:
+		default:
+			sc.writingFrame = true
+			return out
+		}
+		if _, isFlush := wm.write.(flushFrameWriter); isFlush {
+			sc.needsFrameFlush = false
+			sc.writingFrame = true
+			return out
+		}
+		out = append(out, v.describe(wm))
+		if wm.stream != nil && endsStream(wm.write) {
+			sc.needsFrameFlush = false
+			sc.wroteFrame(frameWriteResult{wm: wm})
+			continue
+		}
+		sc.writingFrame = true
+		return out
+	}
+}
+
+// WindowUpdate runs the real processWindowUpdate and, for a stream error, the real resetStream (as
+// processFrameFromReader does): "ok", "nostream", "rst" or "goaway".
 func (v *VerifC34) WindowUpdate(id uint32, inc uint32) string {
+	sc := v.sc
 	if id != 0 {
-		st := v.sc.streams[id]
-		if st == nil {
+		if _, ok := sc.streams[id]; !ok {
 			return "nostream"
 		}
-		if !st.flow.add(int32(inc)) {
-			v.Forget(id)
-			return "rst"
-		}
-		return "ok"
 	}
-	if !v.sc.flow.add(int32(inc)) {
+	sc.writingFrame = true
+	err := sc.processWindowUpdate(&WindowUpdateFrame{FrameHeader: FrameHeader{StreamID: id}, Increment: inc})
+	switch ev := err.(type) {
+	case nil:
+		return "ok"
+	case StreamError:
+		sc.resetStream(ev)
+		return "rst"
+	case goAwayFlowError:
 		return "goaway"
 	}
-	return "ok"
+	return "err"
 }
 
 // InitialWindow runs the real processSettingInitialWindowSize.
@@ -151,16 +225,14 @@ func (v *VerifC34) InitialWindow(val uint32) bool {
 // MaxFrameSize is what processSetting does for SETTINGS_MAX_FRAME_SIZE.
 func (v *VerifC34) MaxFrameSize(val uint32) { v.sc.writeSched.maxFrameSize = val }
 
-// Forget is the scheduler-relevant part of closeStream.
-func (v *VerifC34) Forget(id uint32) bool {
-	st, ok := v.sc.streams[id]
-	if !ok {
+// Reset: the client sends RST_STREAM(CANCEL): real processResetStream -> closeStream.
+func (v *VerifC34) Reset(id uint32) bool {
+	if _, ok := v.sc.streams[id]; !ok {
 		return false
 	}
-	st.state = stateClosed
-	delete(v.sc.streams, id)
-	v.sc.writeSched.forgetStream(id)
-	return true
+	v.sc.writingFrame = true
+	err := v.sc.processResetStream(&RSTStreamFrame{FrameHeader: FrameHeader{StreamID: id}, ErrCode: ErrCodeCancel})
+	return err == nil
 }
 
 // Windows returns the connection send window and the (id, window) pairs of live streams, sorted.
@@ -173,12 +245,13 @@ func (v *VerifC34) Windows() (int32, [][2]int64) {
 	return v.sc.flow.n, out
 }
 
-// Queued returns the ids that have a queue in the scheduler, sorted, and the control queue length.
-func (v *VerifC34) Queued() (int, []uint32) {
+// Queued returns the ids that have a queue in the scheduler, sorted, the control queue length and
+// sc.queuedControlFrames.
+func (v *VerifC34) Queued() (int, int, []uint32) {
 	var ids []uint32
 	for id := range v.sc.writeSched.sq {
 		ids = append(ids, id)
 	}
 	sort.Slice(ids, func(i, j int) bool { return ids[i] < ids[j] })
-	return len(v.sc.writeSched.zero.s), ids
+	return len(v.sc.writeSched.zero.s), v.sc.queuedControlFrames, ids
 }
